@@ -3056,8 +3056,18 @@ GRreadimage(int32 riid, int32 start[2], int32 in_stride[2], int32 count[2], void
            tag & ref are known */
         if (Hlength(hdf_file_id, ri_ptr->img_tag, ri_ptr->img_ref) > 0)
             image_data = TRUE;
-        else
+        else {
+            uint16 f_tag = 0, f_ref = 0;
+            int32  f_off = 0, f_len = 0;
+
+            /* no length: either nothing has been written yet (the fill value is returned), or the
+               element is there and could not be read, which is an error and not an empty image */
+            if (Hfind(hdf_file_id, ri_ptr->img_tag, ri_ptr->img_ref, &f_tag, &f_ref, &f_off, &f_len,
+                      DF_FORWARD) == SUCCEED &&
+                f_off != INVALID_OFFSET && f_len != INVALID_LENGTH)
+                HGOTO_ERROR(DFE_READERROR, FAIL);
             image_data = FALSE;
+        }
     } /* end else */
 
     if (image_data == FALSE) { /* Fake an image for the user by using the pixel fill value */
